@@ -425,7 +425,7 @@ pub fn run(ctx: &Ctx, replay: Option<&Value>) -> i32 {
     }
 
     // (a) batching
-    let lmax = ctx.tier.pick(10usize, 13usize);
+    let lmax = ctx.tier.pick(11usize, 15usize);
     let mut spans = 0u64;
     for len in 1..=lmax {
         let n = 3u64.pow(len as u32);
@@ -435,7 +435,7 @@ pub fn run(ctx: &Ctx, replay: Option<&Value>) -> i32 {
             report_span(ctx, &pat, 0);
         });
     }
-    let tail = ctx.tier.pick(6usize, 8usize);
+    let tail = ctx.tier.pick(7usize, 10usize);
     let mut boundary = 0u64;
     for prefix in 54..=73usize {
         for len in 0..=tail {
